@@ -114,6 +114,39 @@ class FunctionInteractionsUtils(object):
         return OrderedDict(res)
 
     @classmethod
+    def conflicting_store_paths(cls, fi: FunctionInteractions) -> List[DDSPath]:
+        """
+        The paths that are kept more than once with signatures that are known to differ: calls whose arguments are
+        all constants (or that take no argument) and that do not have the same signature. One path cannot hold two
+        contents. Calls with run-time arguments are not considered: their values may well be the same.
+        """
+        sigs: "OrderedDict[DDSPath, Set[PyHash]]" = OrderedDict()
+
+        def collect(fi_: FunctionInteractions) -> None:
+            if fi_.store_path is not None and all(
+                h is not None for h in fi_.arg_input.named_args.values()
+            ):
+                sigs.setdefault(fi_.store_path, set()).add(fi_.fun_return_sig)
+            prev: Optional[FunctionInteractions] = None
+            for fi0 in fi_.parsed_body:
+                if not isinstance(fi0, FunctionInteractions):
+                    continue
+                # The function given by name to dds.keep is recorded twice: as the kept call and, right after it,
+                # as a plain reference to its name analysed without the arguments. The second one is not a call.
+                by_name_duplicate = (
+                    prev is not None
+                    and fi0.store_path is None
+                    and prev.store_path is not None
+                    and prev.fun_path == fi0.fun_path
+                )
+                if not by_name_duplicate:
+                    collect(fi0)
+                    prev = fi0
+
+        collect(fi)
+        return [p for (p, s) in sigs.items() if len(s) > 1]
+
+    @classmethod
     def all_indirect_deps(cls, fis: FunctionInteractions) -> Set[DDSPath]:
         res = set(fis.indirect_deps)
         for fis_ in fis.parsed_body:
